@@ -11,7 +11,8 @@ Model of sampling-based personalisation (property C17).
 Core Lean only (imports the container model because the code calls `IndividualParameters.from_pytorch`).
 Definitions are polymorphic in the number type: the driver runs the argmin on `Float32` (the very additions and
 comparisons torch performs) and the mean on `Rat`; the theorems are over an ordered field.
-The optimiser (`scipy_minimize.py`, scipy's Powell) is *not* modelled.
+The optimiser (`scipy_minimize.py`, scipy's Powell) is *not* modelled; the prior-standardized coordinates it works in are
+(`Model/Scalings.lean`).
 -/
 import LeaspyVerif.Model.IndParams
 
